@@ -13,7 +13,7 @@ class SxfmError(ValueError):
     pass
 
 
-def parse(text):
+def parse(text, with_constraints=True):
     if "<feature_tree>" not in text or "</feature_tree>" not in text:
         raise SxfmError("no feature_tree section")
     tree = text.split("<feature_tree>", 1)[1].split("</feature_tree>", 1)[0].strip("\n").split("\n")
@@ -67,7 +67,7 @@ def parse(text):
     if root is None:
         raise SxfmError("no root")
     clauses = []
-    for ln in cons:
+    for ln in (cons if with_constraints else []):
         if not ln.strip():
             continue
         if ":" not in ln:
@@ -140,3 +140,24 @@ def selections(text):
         if ok and all(any(bool(mask & b) == pos for b, pos in c) for c in cl):
             out.add(frozenset(unquote(i) for i in ids if mask & bit[i]))
     return [unquote(i) for i in ids], out
+
+
+def structure(text):
+    """The feature tree the document declares, as a spec-like nested dict (names unquoted):
+    ':m' -> one-child [1,1] relation, ':o' -> one-child [0,1] relation, ':g [a,b]' -> one relation with its
+    members ('*' = number of members).  Independent of selections(): usable for models of any size."""
+    root, ids, clauses = parse(text, with_constraints=False)
+
+    def feat(n):
+        f = {"name": unquote(n["id"]), "rels": []}
+        for c in n["kids"]:
+            if c["k"] == "m":
+                f["rels"].append({"min": 1, "max": 1, "children": [feat(c)]})
+            elif c["k"] == "o":
+                f["rels"].append({"min": 0, "max": 1, "children": [feat(c)]})
+            elif c["k"] == "g":
+                lo, hi = c["card"]
+                hi = len(c["kids"]) if hi == "*" else int(hi)
+                f["rels"].append({"min": lo, "max": hi, "children": [feat(m) for m in c["kids"]]})
+        return f
+    return {"root": feat(root), "ctcs": []}, clauses
